@@ -8,7 +8,7 @@
  * \ingroup mptNode
  * \brief move node elements
  * 
- * recursive move of list elements to target list.
+ * move of list elements (and elements of sublists) to target list.
  * only move unset elements.
  * 
  * \param src  source nodes list
@@ -18,21 +18,37 @@
  */
 size_t mpt_node_move(MPT_STRUCT(node) **from, MPT_STRUCT(node) *dst)
 {
-	MPT_STRUCT(node) *last = dst, *src = *from;
-	size_t move = 0;
+	MPT_STRUCT(node) **top = from, *first = dst, *last = dst, *src = *from, *up = 0;
+	size_t move = 0, depth = 0;
 	
 	if (!dst) {
 		return 0;
 	}
-	/* move unchanged old configuration */
-	while (src) {
+	/* move unchanged old configuration, depth must not be limited by stack size */
+	while (src || depth) {
 		MPT_STRUCT(node) *curr;
 		const void *id;
 		
+		/* end of child list: continue behind the element it belongs to */
+		if (!src) {
+			curr = first->parent;
+			src = up->next;
+			if (--depth) {
+				up = up->parent;
+				from = &up->children;
+				first = curr->parent->children;
+			} else {
+				up = 0;
+				from = top;
+				first = dst;
+			}
+			last = curr;
+			continue;
+		}
 		id  = mpt_identifier_data(&src->ident);
 		
 		/* move complete node */
-		if (!(curr = mpt_node_locate(dst, 1, id, src->ident._len, src->ident._charset))) {
+		if (!(curr = mpt_node_locate(first, 1, id, src->ident._len, src->ident._charset))) {
 			curr = src;
 			src = src->next;
 			mpt_node_unlink(curr);
@@ -49,7 +65,12 @@ size_t mpt_node_move(MPT_STRUCT(node) **from, MPT_STRUCT(node) *dst)
 		if (src->children) {
 			/* merge children */
 			if (curr->children) {
-				move += mpt_node_move(&src->children, curr->children);
+				up = src;
+				from = &src->children;
+				first = last = curr->children;
+				src = src->children;
+				++depth;
+				continue;
 			}
 			/* reparent children to target */
 			else {
